@@ -235,6 +235,21 @@ Fixpoint set_nth (i : nat) (x : N) (l : list N) : list N :=
   | y :: r, S i => y :: set_nth i x r
   end.
 
+(** ** on_cleanup: a text closure registers a callback on every run (logged as label + 500); the
+    callbacks registered under an effect's owner — its own and those of the effects created during
+    its last run, in creation order — run when the effect re-runs (Owner::with_cleanup), before the
+    closure is invoked *)
+Definition cleanup_mark : nat := 500.
+Fixpoint cleanups (i : inst) : list nat :=
+  match i with
+  | IStatic _ _ _ => []
+  | IText f _ _ _ _ => [(lbl f + cleanup_mark)%nat]
+  | IElem _ _ _ ks =>
+      (fix go (l : list inst) : list nat := match l with [] => [] | k :: l => cleanups k ++ go l end) ks
+  | IIf _ _ _ _ _ _ ch => cleanups ch
+  end.
+Definition log_all (ls : list nat) (v : env) : env := fold_left (fun v l => logged l v) ls v.
+
 (** ** one poll of task [t]: every live effect with that id that was notified re-runs *)
 Definition clear (f : ef) : ef := {| eid := eid f; lbl := lbl f; note := false |}.
 Definition due (t : nat) (f : ef) : bool := Nat.eqb (eid f) t && note f.
@@ -259,7 +274,7 @@ Fixpoint poll (t : nat) (i : inst) (v : env) {struct i} : inst * bool * env :=
   | IStatic _ _ _ => (i, false, v)
   | IText f e id m shown =>
       if due t f then
-        let v1 := logged (lbl f) v in
+        let v1 := logged (lbl f) (logged (lbl f + cleanup_mark) v) in
         let x := eval (sigs v1) e in
         (IText (clear f) e id (if N.eqb x shown then m else S m) x, false, v1)
       else (i, false, v)
@@ -281,7 +296,7 @@ Fixpoint poll (t : nat) (i : inst) (v : env) {struct i} : inst * bool * env :=
           (* memo unchanged: the closure does not run *)
           let '(ch', rep, v1) := poll t ch v in (IIf (clear f) memo c a b br ch', rep, v1)
         else
-          let v1 := logged (lbl f) v in
+          let v1 := logged (lbl f) (log_all (cleanups ch) v) in
           if Bool.eqb br' br then
             (* same side: Either::rebuild -> rebuild in place *)
             let '(ch', rep, v2) := rebuild ch v1 in
